@@ -265,7 +265,7 @@ theorem findIdxFrom_spec (p : Nat → TrxView → Bool) (ts : List TrxView) (i j
 
 /-- how an offered section and the transceiver chosen for it are related -/
 def Matches (o : Media) (t : TrxView) : Prop :=
-  (o.mid ≠ [] ∧ t.mid = some o.mid) ∨ (o.mid = [] ∧ t.kind = o.kind)
+  (o.mid ≠ [] ∧ t.mid = some o.mid ∧ t.kind = o.kind) ∨ (o.mid = [] ∧ t.kind = o.kind)
 
 theorem answerOrder_matches (ts : List TrxView) (secs : List Media) (used : List Nat) (acc out : List (Nat × Bool))
     (h : answerOrder ts secs used acc = some out) :
@@ -284,9 +284,10 @@ theorem answerOrder_matches (ts : List TrxView) (secs : List Media) (used : List
       · split at hi
         · rename_i hmid
           obtain ⟨t, hget, hp, _⟩ := findIdxFrom_spec _ _ _ _ hi
-          refine ⟨t, by simpa using hget, Or.inl ⟨?_, ?_⟩⟩
+          refine ⟨t, by simpa using hget, Or.inl ⟨?_, ?_, ?_⟩⟩
           · intro e; simp [e] at hmid
           · simp only [Bool.and_eq_true, decide_eq_true_eq] at hp; exact hp.2
+          · simp only [Bool.and_eq_true, decide_eq_true_eq] at hp; exact hp.1.2
         · rename_i hmid
           obtain ⟨t, hget, hp, _⟩ := findIdxFrom_spec _ _ _ _ hi
           refine ⟨t, by simpa using hget, Or.inr ⟨?_, ?_⟩⟩
